@@ -3,9 +3,10 @@
    Forest/Visit_proofs.v about the models Forest/Tft.v (TreeForestTransformer with default
    callbacks on acyclic forests) and Forest/Visit.v (ForestVisitor.visit on finite graphs,
    recursive reading and coded explicit-stack loop).
-   What is NOT a theorem here: that the forest built by the Earley engines contains every
-   derivation of the input (layer A: [C20_forest_complete_full_statement]); that is compared on
-   every run against a brute-force enumeration of the derivations of the compiled grammar. *)
+   Layer A (the forest stores exactly the derivations of the input) is proved for the executable model of
+   lark's Earley parser ([C20_forest_exact_model], from Forest/ExplicitAlgBuild_proofs.v, basic lexer / unit
+   tokens); the residue - that this model is lark's parser - is compared on every run (C01/C04 column and
+   alg-families ties, and here: model derivations of the exported forest = brute-force derivations). *)
 From Coq Require Import ZArith List Bool String.
 From Coq Require Import Permutation.
 From LV Require Import Base.Prelude Forest.Sppf Forest.Prio Forest.Prio_proofs Forest.Tft Forest.Tft_proofs
@@ -82,13 +83,12 @@ Theorem C20_loop_eq_rec g single sel root st :
 Proof. exact (loop_eq_rec g single sel root st). Qed.
 Print Assumptions C20_loop_eq_rec.
 
-(* Layer A, not proved: the forest the Earley engines build for grammar G and input w
-   denotes every derivation of w.  Stated over an abstract builder; tied by the differential
-   stream (model [root_derivs] of the exported forest = brute-force derivations). *)
-Definition C20_forest_complete_full_statement : Prop :=
-  forall (grammar input : Type) (build : grammar -> input -> option sym)
+(* Layer A beyond the model: the forest LARK builds (all three lexers, %ignore) denotes exactly the derivations of
+   the input.  Proved for the model below; for lark itself it rests on the per-case ties. *)
+Definition C20_forest_exact_lark_full_statement : Prop :=
+  forall (grammar input : Type) (lark_forest : grammar -> input -> option sym)
          (derivations : grammar -> input -> dtree -> Prop),
-  forall G w s, build G w = Some s ->
+  forall G w s, lark_forest G w = Some s ->
   forall d, derivations G w d <-> In d (root_derivs s).
 
 (* ---- non-vacuity ---------------------------------------------------------------------- *)
@@ -153,3 +153,46 @@ Definition cyc_fams : list (nlabel nat * family nat) :=
 Example C20_example_graph_resolve :
   graph_resolve nat Nat.eqb cyc_fams (fun _ fs => fs) (NSym nat 0 0 1) = Some (DN nat rx [DL nat 0 7]).
 Proof. vm_compute. reflexivity. Qed.
+
+(* ---- layer A for the executable Earley model (Forest/ExplicitAlgBuild.v: Earley/Alg.v instrumented with the
+   add_family calls of earley.py, node_cache keys as labels): below the root (start, 0, |w|) the model's graph
+   forest stores exactly the derivation trees of the input - both inclusions *)
+From LV Require Import Earley.Alg Forest.ExplicitAlgBuild Forest.ExplicitAlgBuild_proofs.
+
+Theorem C20_forest_exact_model G start toks :
+  r_out (fst (iearley_parse G start toks)) = Accept \/ r_out (fst (iearley_parse G start toks)) = RejectEOF ->
+  forall ds, den nat (in_forest nat (snd (iearley_parse G start toks))) (NSym nat start 0 (List.length toks)) ds
+             <-> exists d, ds = [d] /\ wfd G nat Nat.eqb d (NT start) /\ yield nat d = toks.
+Proof. exact (iearley_forest_exact G start toks). Qed.
+Print Assumptions C20_forest_exact_model.
+
+(* every derivation tree of the sentence makes the model accept and is stored below the root *)
+Theorem C20_forest_complete_model G start toks d :
+  wfd G nat Nat.eqb d (NT start) -> yield nat d = toks ->
+  r_out (fst (iearley_parse G start toks)) = Accept
+  /\ den nat (in_forest nat (snd (iearley_parse G start toks))) (NSym nat start 0 (List.length toks)) [d].
+Proof. exact (iearley_forest_complete G start toks d). Qed.
+Print Assumptions C20_forest_complete_model.
+
+(* ... hence the resolve walk on the model's forest (cyclic or not, any children order) returns a derivation tree
+   of the sentence, and returns one whenever the sentence has one *)
+Theorem C20_resolve_model_exact G start toks
+  (order : nlabel nat -> list (family nat) -> list (family nat))
+  (order_perm : forall l fs f, In f (order l fs) <-> In f fs) :
+  let forest := snd (iearley_parse G start toks) in
+  let root := NSym nat start 0 (List.length toks) in
+  (r_out (fst (iearley_parse G start toks)) = Accept ->
+   forall d, graph_resolve nat Nat.eqb forest order root = Some d ->
+             wfd G nat Nat.eqb d (NT start) /\ yield nat d = toks) /\
+  (forall d, wfd G nat Nat.eqb d (NT start) -> yield nat d = toks ->
+             graph_resolve nat Nat.eqb forest order root <> None).
+Proof.
+  cbv zeta. split.
+  - intros Hacc d Hr.
+    apply (graph_resolve_in_den nat Nat.eqb Nat.eqb_eq _ order order_perm) in Hr.
+    apply (iearley_forest_exact G start toks (or_introl Hacc)) in Hr.
+    destruct Hr as [d0 [E [Hw Hy]]]. injection E as <-. auto.
+  - intros d Hw Hy. destruct (iearley_forest_complete G start toks d Hw Hy) as [_ Hden].
+    exact (graph_resolve_total nat Nat.eqb Nat.eqb_eq _ order order_perm _ _ _ _ Hden).
+Qed.
+Print Assumptions C20_resolve_model_exact.
